@@ -27,7 +27,7 @@ BUDGET = {"quick": (16, 0), "thorough": (16, 0)}
 
 SPELLINGS = [
     ("nobody", "nogroup"), ("65534", "65534"), ("nobody", None), (None, "nogroup"), ("nobody", "games"), ("daemon", "daemon"),
-    (None, "65534"), ("1", None),
+    (None, "65534"), ("1", None), ("54321", "nogroup"),
 ]
 HISTORIES = ["kill", "hup", "usr2", "hup-rebind"]
 KINDS = ["sync", "gthread", "gevent", "eventlet"]
